@@ -74,12 +74,14 @@ type Term struct {
 
 // TermTable owns all terms of one worker.
 type TermTable struct {
-	byKey map[string]*Term
-	all   []*Term
-	vars  map[string]*Term
-	ufs   map[string]*ufDecl
-	True  *Term
-	False *Term
+	byKey       map[string]*Term
+	all         []*Term
+	vars        map[string]*Term
+	ufs         map[string]*ufDecl
+	True        *Term
+	inIteXor    bool
+	extractMemo map[[3]int]*Term
+	False       *Term
 
 	inSubst bool
 }
@@ -440,6 +442,46 @@ func (tt *TermTable) Ite(c, a, b *Term) *Term {
 		}
 	}
 	if a.W > 0 {
+		// ite(c, B^d, B) = B ^ ite(c, d, 0) on flattened xor leaves: the arms of
+		// a merged "if bit { acc ^= k }" share all leaves but one (keeps an
+		// accumulator a flat xor of guarded leaves instead of a nested ite)
+		if (a.Op == OpBVXor || b.Op == OpBVXor) && !tt.inIteXor {
+			la, lb := xorLeaves(a, nil, 0), xorLeaves(b, nil, 0)
+			if len(la) <= 160 && len(lb) <= 160 {
+				inA := map[int]int{}
+				for _, l := range la {
+					inA[l.ID]++
+				}
+				common := 0
+				var diff []*Term
+				for _, l := range lb {
+					if inA[l.ID] > 0 {
+						inA[l.ID]--
+						common++
+					} else {
+						diff = append(diff, l)
+					}
+				}
+				for _, l := range la {
+					if inA[l.ID] > 0 {
+						inA[l.ID]--
+						diff = append(diff, l)
+					}
+				}
+				if common > 0 && (2*common > len(lb) || 2*common > len(la)) {
+					tt.inIteXor = true
+					d := tt.xorOf(diff, a.W)
+					var r *Term
+					if 2*common > len(lb) {
+						r = tt.BV(OpBVXor, b, tt.Ite(c, d, tt.Zero(a.W)))
+					} else {
+						r = tt.BV(OpBVXor, a, tt.Ite(c, tt.Zero(a.W), d))
+					}
+					tt.inIteXor = false
+					return r
+				}
+			}
+		}
 		// ite(c, x|m, x) = x | ite(c, m, 0)   and   ite(c, x^y, x) = x ^ ite(c, y, 0)
 		for _, op := range []Op{OpBVOr, OpBVXor} {
 			if a.Op == op {
@@ -687,10 +729,12 @@ func (tt *TermTable) BV(op Op, a, b *Term) *Term {
 		a, b = b, a
 	}
 	// op(ite(c,k1,k2), k) with constants folds through the ite
-	if w <= 64 && b.IsConst() && a.Op == OpIte && iteOfConsts(a, 3) {
+	// (not for an xor accumulator step ite(c,k,0) ^ k2: that stays a flat xor of guarded constants)
+	xorAcc := op == OpBVXor && ((a.Op == OpIte && (isZero(a.Args[1]) || isZero(a.Args[2]))) || (b.Op == OpIte && (isZero(b.Args[1]) || isZero(b.Args[2]))))
+	if w <= 64 && !xorAcc && b.IsConst() && a.Op == OpIte && iteOfConsts(a, 3) {
 		return tt.Ite(a.Args[0], tt.BV(op, a.Args[1], b), tt.BV(op, a.Args[2], b))
 	}
-	if w <= 64 && a.IsConst() && b.Op == OpIte && iteOfConsts(b, 3) {
+	if w <= 64 && !xorAcc && a.IsConst() && b.Op == OpIte && iteOfConsts(b, 3) {
 		return tt.Ite(b.Args[0], tt.BV(op, a, b.Args[1]), tt.BV(op, a, b.Args[2]))
 	}
 	bz := b.IsConst() && b.Val == 0
@@ -744,10 +788,10 @@ func (tt *TermTable) BV(op Op, a, b *Term) *Term {
 		if a.Op == OpIte && b.Op == OpIte && a.Args[0] == b.Args[0] {
 			return tt.Ite(a.Args[0], tt.BV(OpBVXor, a.Args[1], b.Args[1]), tt.BV(OpBVXor, a.Args[2], b.Args[2]))
 		}
-		if a.Op == OpIte && b.Op != OpIte && !isZero(a.Args[1]) && !isZero(a.Args[2]) && (b.IsConst() || xorShares(b, a.Args[1]) || xorShares(b, a.Args[2])) {
+		if a.Op == OpIte && b.Op != OpIte && !isZero(a.Args[1]) && !isZero(a.Args[2]) && ((b.IsConst() && iteOfConsts(a, 3)) || xorShares(b, a.Args[1]) || xorShares(b, a.Args[2])) {
 			return tt.Ite(a.Args[0], tt.BV(OpBVXor, a.Args[1], b), tt.BV(OpBVXor, a.Args[2], b))
 		}
-		if b.Op == OpIte && a.Op != OpIte && !isZero(b.Args[1]) && !isZero(b.Args[2]) && (a.IsConst() || xorShares(a, b.Args[1]) || xorShares(a, b.Args[2])) {
+		if b.Op == OpIte && a.Op != OpIte && !isZero(b.Args[1]) && !isZero(b.Args[2]) && ((a.IsConst() && iteOfConsts(b, 3)) || xorShares(a, b.Args[1]) || xorShares(a, b.Args[2])) {
 			return tt.Ite(b.Args[0], tt.BV(OpBVXor, a, b.Args[1]), tt.BV(OpBVXor, a, b.Args[2]))
 		}
 		if r := tt.segBitwise(op, a, b); r != nil {
@@ -1197,6 +1241,17 @@ func lzBits(a *Term, depth int) int {
 		}
 	case OpZExt:
 		return a.W - a.Args[0].W + leadingZeroBits(a.Args[0])
+	case OpBVAdd:
+		x, y := leadingZeroBits(a.Args[0]), leadingZeroBits(a.Args[1])
+		if y < x {
+			x = y
+		}
+		if x > 0 {
+			return x - 1
+		}
+	case OpBVURem:
+		// x mod y <= x and (for y != 0) < y; for y == 0 SMT-LIB gives x
+		return leadingZeroBits(a.Args[0])
 	case OpConcat:
 		if a.Args[0].IsConst() && a.Args[0].Val == 0 {
 			return a.Args[0].W + leadingZeroBits(a.Args[1])
@@ -1259,6 +1314,25 @@ func (tt *TermTable) Extract(a *Term, hi, lo int) *Term {
 	if w == a.W {
 		return a
 	}
+	// memoised: pushing an extract through a deep shared xor/ite DAG would
+	// otherwise re-traverse shared subterms once per path
+	if a.size > 8 {
+		key := [3]int{a.ID, hi, lo}
+		if r, ok := tt.extractMemo[key]; ok {
+			return r
+		}
+		if tt.extractMemo == nil {
+			tt.extractMemo = map[[3]int]*Term{}
+		}
+		r := tt.extract1(a, hi, lo)
+		tt.extractMemo[key] = r
+		return r
+	}
+	return tt.extract1(a, hi, lo)
+}
+
+func (tt *TermTable) extract1(a *Term, hi, lo int) *Term {
+	w := hi - lo + 1
 	switch a.Op {
 	case OpConst:
 		if a.W <= 64 {
@@ -1353,6 +1427,11 @@ func (tt *TermTable) segsOf(a *Term, out []seg) []seg {
 // resolvable).  Returns nil if no simplification applies.
 func (tt *TermTable) segBitwise(op Op, a, b *Term) *Term {
 	if a.Op != OpConcat && b.Op != OpConcat {
+		return nil
+	}
+	// slicing a large non-concatenation operand once per segment is quadratic
+	// (and recursive): keep such operations at word level
+	if (a.Op != OpConcat && a.size > 600) || (b.Op != OpConcat && b.size > 600) {
 		return nil
 	}
 	sa := tt.segsOf(a, nil)
